@@ -236,6 +236,239 @@ theorem sharedAt_retainMessage (x : Index) (t p : Str) (fl : Bool) (q : Path) (g
     sharedAt (retainMessage x t p fl).1 q g c = sharedAt x q g c :=
   retainMessage_look x t p fl _ (deadNone_shared g c) (fun _ _ => rfl) q
 
+/-! ### the lists of the index are maps: distinct particle addresses, distinct keys -/
+
+theorem assocSet_mem_cases {α β} [DecidableEq α] (m : List (α × β)) (k : α) (v : β) (e : α × β)
+    (h : e ∈ assocSet m k v) : e ∈ m ∨ e = (k, v) := by
+  induction m with
+  | nil =>
+    unfold assocSet at h
+    exact Or.inr (List.mem_singleton.mp h)
+  | cons x xs ih =>
+    obtain ⟨a, b⟩ := x
+    unfold assocSet at h
+    split at h
+    · rcases List.mem_cons.mp h with h | h
+      · exact Or.inr h
+      · exact Or.inl (List.mem_cons_of_mem _ h)
+    · rcases List.mem_cons.mp h with h | h
+      · exact Or.inl (h ▸ List.mem_cons_self)
+      · rcases ih h with h | h
+        · exact Or.inl (List.mem_cons_of_mem _ h)
+        · exact Or.inr h
+
+theorem assocSet_nodup_keys {α β} [DecidableEq α] (m : List (α × β)) (k : α) (v : β)
+    (h : (m.map (·.1)).Nodup) : ((assocSet m k v).map (·.1)).Nodup := by
+  induction m with
+  | nil =>
+    unfold assocSet
+    exact List.nodup_cons.mpr ⟨List.not_mem_nil, List.nodup_nil⟩
+  | cons x xs ih =>
+    obtain ⟨a, b⟩ := x
+    rw [List.map_cons, List.nodup_cons] at h
+    unfold assocSet
+    split
+    · rename_i hak
+      rw [List.map_cons, List.nodup_cons]
+      exact ⟨hak ▸ h.1, h.2⟩
+    · rename_i hak
+      rw [List.map_cons, List.nodup_cons]
+      refine ⟨?_, ih h.2⟩
+      intro hmem
+      obtain ⟨e, he, hea⟩ := List.mem_map.mp hmem
+      rcases assocSet_mem_cases xs k v e he with h' | h'
+      · exact h.1 (List.mem_map.mpr ⟨e, h', hea⟩)
+      · subst h'
+        exact hak hea.symm
+
+theorem assocDel_nodup_keys {α β} [DecidableEq α] (m : List (α × β)) (k : α)
+    (h : (m.map (·.1)).Nodup) : ((assocDel m k).map (·.1)).Nodup :=
+  (List.filter_sublist.map _).nodup h
+
+theorem assocGet_none_not_mem {α β} [DecidableEq α] (m : List (α × β)) (k : α) (h : assocGet m k = none) :
+    k ∉ m.map (·.1) := by
+  induction m with
+  | nil => simp
+  | cons x xs ih =>
+    obtain ⟨a, b⟩ := x
+    unfold assocGet at h
+    split at h
+    · cases h
+    · rename_i hak
+      rw [List.map_cons, List.mem_cons]
+      rintro (e | e)
+      · exact hak e.symm
+      · exact ih h e
+
+theorem assocGet_of_mem {α β} [DecidableEq α] (m : List (α × β)) (k : α) (v : β)
+    (hnd : (m.map (·.1)).Nodup) (h : (k, v) ∈ m) : assocGet m k = some v := by
+  induction m with
+  | nil => cases h
+  | cons x xs ih =>
+    obtain ⟨a, b⟩ := x
+    rw [List.map_cons, List.nodup_cons] at hnd
+    unfold assocGet
+    rcases List.mem_cons.mp h with h | h
+    · cases h; simp
+    · have : ¬ a = k := by
+        intro e
+        subst e
+        exact hnd.1 (List.mem_map.mpr ⟨(a, v), h, rfl⟩)
+      simp only [this, if_false]
+      exact ih hnd.2 h
+
+/-- the three association lists of a particle have distinct keys -/
+structure NodeOK (n : Node) : Prop where
+  subs : (n.subs.map (·.1)).Nodup
+  shared : (n.shared.map (·.1)).Nodup
+  members : ∀ gm ∈ n.shared, (gm.2.map (·.1)).Nodup
+
+theorem nodeOK_fresh (q : Path) : NodeOK { path := q } :=
+  ⟨List.nodup_nil, List.nodup_nil, fun _ h => by cases h⟩
+
+theorem sharedAdd_ok (sh : List (Str × List (Str × Sub))) (g c : Str) (s : Sub)
+    (h1 : (sh.map (·.1)).Nodup) (h2 : ∀ gm ∈ sh, (gm.2.map (·.1)).Nodup) :
+    ((sharedAdd sh g c s).map (·.1)).Nodup ∧ ∀ gm ∈ sharedAdd sh g c s, (gm.2.map (·.1)).Nodup := by
+  unfold sharedAdd
+  cases hg : assocGet sh g with
+  | none =>
+    refine ⟨?_, ?_⟩
+    · show ((sh ++ [(g, [(c, s)])]).map (·.1)).Nodup
+      rw [List.map_append, List.nodup_append]
+      refine ⟨h1, List.nodup_cons.mpr ⟨List.not_mem_nil, List.nodup_nil⟩, ?_⟩
+      intro a ha b hb hab
+      rw [List.map_cons, List.map_nil, List.mem_singleton] at hb
+      subst hb; subst hab
+      exact assocGet_none_not_mem sh _ hg ha
+    · intro gm hgm
+      replace hgm : gm ∈ sh ++ [(g, [(c, s)])] := hgm
+      rcases List.mem_append.mp hgm with hgm | hgm
+      · exact h2 gm hgm
+      · rw [List.mem_singleton.mp hgm]
+        exact List.nodup_cons.mpr ⟨List.not_mem_nil, List.nodup_nil⟩
+  | some m =>
+    refine ⟨assocSet_nodup_keys _ _ _ h1, ?_⟩
+    intro gm hgm
+    replace hgm : gm ∈ assocSet sh g (assocSet m c s) := hgm
+    rcases assocSet_mem_cases _ _ _ _ hgm with hgm | hgm
+    · exact h2 gm hgm
+    · rw [hgm]
+      exact assocSet_nodup_keys _ _ _ (h2 (g, m) (assocGet_mem sh g m hg))
+
+theorem sharedDel_ok (sh : List (Str × List (Str × Sub))) (g c : Str)
+    (h1 : (sh.map (·.1)).Nodup) (h2 : ∀ gm ∈ sh, (gm.2.map (·.1)).Nodup) :
+    ((sharedDel sh g c).map (·.1)).Nodup ∧ ∀ gm ∈ sharedDel sh g c, (gm.2.map (·.1)).Nodup := by
+  unfold sharedDel
+  cases hg : assocGet sh g with
+  | none => exact ⟨h1, h2⟩
+  | some m =>
+    simp only
+    split
+    · exact ⟨assocDel_nodup_keys _ _ h1, fun gm hgm => h2 gm (List.mem_filter.mp hgm).1⟩
+    · refine ⟨assocSet_nodup_keys _ _ _ h1, ?_⟩
+      intro gm hgm
+      rcases assocSet_mem_cases _ _ _ _ hgm with hgm | hgm
+      · exact h2 gm hgm
+      · rw [hgm]
+        exact assocDel_nodup_keys _ _ (h2 (g, m) (assocGet_mem sh g m hg))
+
+def AllNodeOK (ns : List Node) : Prop := ∀ n ∈ ns, NodeOK n
+
+theorem mem_putNode (ns : List Node) (n m : Node) (h : m ∈ putNode ns n) : m = n ∨ m ∈ ns := by
+  unfold putNode at h
+  obtain ⟨x, hx, e⟩ := List.mem_map.mp h
+  split at e
+  · exact Or.inl e.symm
+  · exact Or.inr (e ▸ hx)
+
+theorem mem_setPath (ns : List Node) (p : Path) (m : Node) (h : m ∈ setPath ns p) :
+    m ∈ ns ∨ ∃ q, m = { path := q } := by
+  unfold setPath at h
+  generalize prefixes p = qs at h
+  induction qs generalizing ns with
+  | nil => exact Or.inl h
+  | cons q rest ih =>
+    rw [List.foldl_cons] at h
+    rcases ih _ h with h' | h'
+    · split at h'
+      · exact Or.inl h'
+      · rcases List.mem_append.mp h' with h' | h'
+        · exact Or.inl h'
+        · exact Or.inr ⟨q, List.mem_singleton.mp h'⟩
+    · exact Or.inr h'
+
+theorem allNodeOK_setPath (ns : List Node) (p : Path) (h : AllNodeOK ns) : AllNodeOK (setPath ns p) := by
+  intro m hm
+  rcases mem_setPath ns p m hm with hm | ⟨q, rfl⟩
+  · exact h m hm
+  · exact nodeOK_fresh q
+
+theorem allNodeOK_putNode (ns : List Node) (n : Node) (h : AllNodeOK ns) (hn : NodeOK n) :
+    AllNodeOK (putNode ns n) := by
+  intro m hm
+  rcases mem_putNode ns n m hm with rfl | hm
+  · exact hn
+  · exact h m hm
+
+theorem allNodeOK_trim (ns : List Node) (p : Path) (fuel : Nat) (h : AllNodeOK ns) : AllNodeOK (trim ns p fuel) :=
+  fun m hm => h m ((trim_sublist ns p fuel).subset hm)
+
+theorem allNodeOK_applyOp (x : Index) (h : AllNodeOK x.nodes) (op : IOp) : AllNodeOK (applyOp x op).nodes := by
+  cases op with
+  | subscribe c s =>
+    simp only [applyOp, subscribe]
+    split
+    · split
+      · exact h
+      · rename_i n hn
+        have hno := allNodeOK_setPath _ _ h n (getNode_mem hn)
+        have := sharedAdd_ok n.shared (isolate (splitLevels s.filter) 1).1 c s hno.shared hno.members
+        exact allNodeOK_putNode _ _ (allNodeOK_setPath _ _ h) ⟨hno.subs, this.1, this.2⟩
+    · split
+      · exact h
+      · rename_i n hn
+        have hno := allNodeOK_setPath _ _ h n (getNode_mem hn)
+        exact allNodeOK_putNode _ _ (allNodeOK_setPath _ _ h)
+          ⟨assocSet_nodup_keys _ _ _ hno.subs, hno.shared, hno.members⟩
+  | unsubscribe f c =>
+    simp only [applyOp, unsubscribe]
+    split
+    · exact h
+    · rename_i n hn
+      have hno := h n (getNode_mem (seek_some hn))
+      split
+      · have := sharedDel_ok n.shared (isolate (splitLevels f) 1).1 c hno.shared hno.members
+        exact allNodeOK_trim _ _ _ (allNodeOK_putNode _ _ h ⟨hno.subs, this.1, this.2⟩)
+      · exact allNodeOK_trim _ _ _ (allNodeOK_putNode _ _ h
+          ⟨assocDel_nodup_keys _ _ hno.subs, hno.shared, hno.members⟩)
+  | inlineSubscribe id s =>
+    simp only [applyOp, inlineSubscribe]
+    split
+    · exact h
+    · rename_i n hn
+      have hno := allNodeOK_setPath _ _ h n (getNode_mem hn)
+      exact allNodeOK_putNode _ _ (allNodeOK_setPath _ _ h) ⟨hno.subs, hno.shared, hno.members⟩
+  | inlineUnsubscribe id f =>
+    simp only [applyOp, inlineUnsubscribe]
+    split
+    · exact h
+    · rename_i n hn
+      have hno := h n (getNode_mem (seek_some hn))
+      simp only
+      split
+      · exact allNodeOK_trim _ _ _ (allNodeOK_putNode _ _ h ⟨hno.subs, hno.shared, hno.members⟩)
+      · exact allNodeOK_putNode _ _ h ⟨hno.subs, hno.shared, hno.members⟩
+  | retain t p fl =>
+    simp only [applyOp, retainMessage]
+    split
+    · exact h
+    · rename_i n hn
+      have hno := allNodeOK_setPath _ _ h n (getNode_mem hn)
+      split
+      · exact allNodeOK_putNode _ _ (allNodeOK_setPath _ _ h) ⟨hno.subs, hno.shared, hno.members⟩
+      · exact allNodeOK_trim _ _ _
+          (allNodeOK_putNode _ _ (allNodeOK_setPath _ _ h) ⟨hno.subs, hno.shared, hno.members⟩)
+
 /-! ### the structural invariant -/
 
 /-- every entry is stored at the address (and under the group) its own filter determines -/
@@ -247,13 +480,17 @@ structure Pos (x : Index) : Prop where
 structure IdxOK (x : Index) : Prop where
   pc : PrefixClosed x.nodes
   pos : Pos x
+  paths : PathsOK (x.nodes.map (·.path))
+  keys : AllNodeOK x.nodes
 
 theorem idxOK_empty : IdxOK {} :=
   ⟨by intro p hp; simp [hasNode] at hp, ⟨fun _ _ _ h => by simp [plainAt, getNode_nil] at h,
-    fun _ _ _ _ h => by simp [sharedAt, getNode_nil] at h⟩⟩
+    fun _ _ _ _ h => by simp [sharedAt, getNode_nil] at h⟩,
+   ⟨List.nodup_nil, fun _ h => by simp at h⟩, fun _ h => by cases h⟩
 
 theorem idxOK_subscribe (x : Index) (h : IdxOK x) (c : Str) (s : Sub) : IdxOK (subscribe x c s).1 := by
-  refine ⟨prefixClosed_applyOp x h.pc (.subscribe c s), ⟨?_, ?_⟩⟩
+  refine ⟨prefixClosed_applyOp x h.pc (.subscribe c s), ⟨?_, ?_⟩, pathsOK_applyOp x h.paths (.subscribe c s),
+    allNodeOK_applyOp x h.keys (.subscribe c s)⟩
   · intro q c' sub hq
     rw [plainAt_subscribe] at hq
     split at hq
@@ -270,7 +507,8 @@ theorem idxOK_subscribe (x : Index) (h : IdxOK x) (c : Str) (s : Sub) : IdxOK (s
     · exact h.pos.shared q g c' sub hq
 
 theorem idxOK_unsubscribe (x : Index) (h : IdxOK x) (f c : Str) : IdxOK (unsubscribe x f c).1 := by
-  refine ⟨prefixClosed_applyOp x h.pc (.unsubscribe f c), ⟨?_, ?_⟩⟩
+  refine ⟨prefixClosed_applyOp x h.pc (.unsubscribe f c), ⟨?_, ?_⟩, pathsOK_applyOp x h.paths (.unsubscribe f c),
+    allNodeOK_applyOp x h.keys (.unsubscribe f c)⟩
   · intro q c' sub hq
     rw [plainAt_unsubscribe x h.pc] at hq
     split at hq
@@ -285,17 +523,20 @@ theorem idxOK_unsubscribe (x : Index) (h : IdxOK x) (f c : Str) : IdxOK (unsubsc
 theorem idxOK_inlineSubscribe (x : Index) (h : IdxOK x) (id : Nat) (s : Sub) : IdxOK (inlineSubscribe x id s).1 :=
   ⟨prefixClosed_applyOp x h.pc (.inlineSubscribe id s),
    ⟨fun q c sub hq => h.pos.plain q c sub (by rw [← plainAt_inlineSubscribe x id s]; exact hq),
-    fun q g c sub hq => h.pos.shared q g c sub (by rw [← sharedAt_inlineSubscribe x id s]; exact hq)⟩⟩
+    fun q g c sub hq => h.pos.shared q g c sub (by rw [← sharedAt_inlineSubscribe x id s]; exact hq)⟩,
+   pathsOK_applyOp x h.paths (.inlineSubscribe id s), allNodeOK_applyOp x h.keys (.inlineSubscribe id s)⟩
 
 theorem idxOK_inlineUnsubscribe (x : Index) (h : IdxOK x) (id : Nat) (f : Str) : IdxOK (inlineUnsubscribe x id f).1 :=
   ⟨prefixClosed_applyOp x h.pc (.inlineUnsubscribe id f),
    ⟨fun q c sub hq => h.pos.plain q c sub (by rw [← plainAt_inlineUnsubscribe x id f]; exact hq),
-    fun q g c sub hq => h.pos.shared q g c sub (by rw [← sharedAt_inlineUnsubscribe x id f]; exact hq)⟩⟩
+    fun q g c sub hq => h.pos.shared q g c sub (by rw [← sharedAt_inlineUnsubscribe x id f]; exact hq)⟩,
+   pathsOK_applyOp x h.paths (.inlineUnsubscribe id f), allNodeOK_applyOp x h.keys (.inlineUnsubscribe id f)⟩
 
 theorem idxOK_retainMessage (x : Index) (h : IdxOK x) (t p : Str) (fl : Bool) : IdxOK (retainMessage x t p fl).1 :=
   ⟨prefixClosed_applyOp x h.pc (.retain t p fl),
    ⟨fun q c sub hq => h.pos.plain q c sub (by rw [← plainAt_retainMessage x t p fl]; exact hq),
-    fun q g c sub hq => h.pos.shared q g c sub (by rw [← sharedAt_retainMessage x t p fl]; exact hq)⟩⟩
+    fun q g c sub hq => h.pos.shared q g c sub (by rw [← sharedAt_retainMessage x t p fl]; exact hq)⟩,
+   pathsOK_applyOp x h.paths (.retain t p fl), allNodeOK_applyOp x h.keys (.retain t p fl)⟩
 
 /-! ### entries -/
 
@@ -363,5 +604,71 @@ theorem Entry.of_unsubscribe {x : Index} (hx : IdxOK x) {f c c' f' : Str} (h : E
       obtain ⟨h1, h2, h3⟩ := hx.pos.shared q g c' sub h
       rw [e] at h1 h2 h3
       exact hn ⟨h1, h2.symm, h3.symm, rfl⟩
+
+/-! ### the entries as a list -/
+
+/-- the non-inline entries of the index, particle by particle: (client id, filter of the stored subscription),
+    plain and shared -/
+def indexEntries (x : Index) : List (Str × Str) :=
+  x.nodes.flatMap fun n =>
+    n.subs.map (fun cs => (cs.1, cs.2.filter)) ++
+    n.shared.flatMap (fun gm => gm.2.map (fun cs => (cs.1, cs.2.filter)))
+
+theorem mem_indexEntries {x : Index} {c f : Str} :
+    (c, f) ∈ indexEntries x ↔ ∃ n ∈ x.nodes,
+      (∃ sub, (c, sub) ∈ n.subs ∧ sub.filter = f) ∨ (∃ g m sub, (g, m) ∈ n.shared ∧ (c, sub) ∈ m ∧ sub.filter = f) := by
+  unfold indexEntries
+  simp only [List.mem_flatMap, List.mem_append, List.mem_map, Prod.mk.injEq, Prod.exists]
+  constructor
+  · rintro ⟨n, hn, h | h⟩
+    · obtain ⟨a, b, hab, rfl, rfl⟩ := h
+      exact ⟨n, hn, Or.inl ⟨b, hab, rfl⟩⟩
+    · obtain ⟨g, m, hgm, a, b, hab, rfl, rfl⟩ := h
+      exact ⟨n, hn, Or.inr ⟨g, m, b, hgm, hab, rfl⟩⟩
+  · rintro ⟨n, hn, h | h⟩
+    · obtain ⟨sub, hs, rfl⟩ := h
+      exact ⟨n, hn, Or.inl ⟨c, sub, hs, rfl, rfl⟩⟩
+    · obtain ⟨g, m, sub, hgm, hs, rfl⟩ := h
+      exact ⟨n, hn, Or.inr ⟨g, m, hgm, c, sub, hs, rfl, rfl⟩⟩
+
+/-- with distinct addresses and keys, the entries of the list are exactly what the lookups find -/
+theorem Entry.of_mem {x : Index} (hx : IdxOK x) {c f : Str} (h : (c, f) ∈ indexEntries x) : Entry x c f := by
+  obtain ⟨n, hn, h⟩ := mem_indexEntries.mp h
+  have hg := getNode_of_mem x.nodes hx.paths.1 n hn
+  have hno := hx.keys n hn
+  rcases h with ⟨sub, hs, hf⟩ | ⟨g, m, sub, hgm, hs, hf⟩
+  · refine Or.inl ⟨n.path, sub, ?_, hf⟩
+    unfold plainAt
+    rw [hg]
+    exact assocGet_of_mem _ _ _ hno.subs hs
+  · refine Or.inr ⟨n.path, g, sub, ?_, hf⟩
+    unfold sharedAt
+    rw [hg]
+    show sharedGet n.shared g c = some sub
+    unfold sharedGet
+    rw [assocGet_of_mem _ _ _ hno.shared hgm]
+    exact assocGet_of_mem _ _ _ (hno.members (g, m) hgm) hs
+
+theorem Entry.mem {x : Index} {c f : Str} (h : Entry x c f) : (c, f) ∈ indexEntries x := by
+  apply mem_indexEntries.mpr
+  rcases h with ⟨q, sub, hq, hf⟩ | ⟨q, g, sub, hq, hf⟩
+  · unfold plainAt at hq
+    cases hg : getNode x.nodes q with
+    | none => rw [hg] at hq; cases hq
+    | some n =>
+      rw [hg] at hq
+      exact ⟨n, getNode_mem hg, Or.inl ⟨sub, assocGet_mem _ _ _ hq, hf⟩⟩
+  · unfold sharedAt at hq
+    cases hg : getNode x.nodes q with
+    | none => rw [hg] at hq; cases hq
+    | some n =>
+      rw [hg] at hq
+      have hq : sharedGet n.shared g c = some sub := hq
+      unfold sharedGet at hq
+      cases hm : assocGet n.shared g with
+      | none => rw [hm] at hq; cases hq
+      | some m =>
+        rw [hm] at hq
+        exact ⟨n, getNode_mem hg, Or.inr ⟨g, m, sub, assocGet_mem _ _ _ hm, assocGet_mem _ _ _ hq, hf⟩⟩
 
 end Mochi.Topics
